@@ -105,6 +105,9 @@ type c05Script struct {
 	Ops      []c05Op `json:"ops"`
 	HookUS   int     `json:"hook_us,omitempty"`
 	FakeClock bool   `json:"fake_clock,omitempty"`
+	// MaxRetries of the client: 0 (unbounded) or a bound that the scripted faults never reach
+	// without an intervening successful connection (each fault costs at most 2 consecutive retries).
+	MaxRetries int `json:"max_retries,omitempty"`
 	Payloads bool    `json:"hostile_payloads,omitempty"`
 }
 
@@ -171,10 +174,7 @@ func runC05(sc *c05Script, rng *rand.Rand) (res c05Result) {
 		sessions = append(sessions, s)
 		nth := len(sessions)
 		smu.Unlock()
-		want := clientLast.Load().(string)
-		if nth > 1 && (s.header != want || s.hasHeader != (want != "")) {
-			addFinding([]string{"last_event_id_header_wrong"}, "request #%d carried Last-Event-Id %q (present=%v) but the client's last dispatched event has ID %q", nth, s.header, s.hasHeader, want)
-		}
+		_ = nth
 		sseSrv.ServeHTTP(countRW{w, &s.written}, r.WithContext(ctx))
 		s.done.Store(true)
 	})
@@ -220,7 +220,25 @@ func runC05(sc *c05Script, rng *rand.Rand) (res c05Result) {
 
 	ctx, cancel := context.WithCancel(context.Background())
 	defer cancel()
-	cl := &sse.Client{HTTPClient: &http.Client{Transport: transport}, Backoff: sse.Backoff{InitialInterval: time.Millisecond, Multiplier: 1, Jitter: -1}}
+	// The Last-Event-ID of every request is checked where the client hands it to the transport:
+	// RoundTrip runs on Connect's goroutine, which is also the one that dispatches events, so
+	// "the client's last dispatched event" is exact at that instant (a server-side check would
+	// depend on the order in which handler goroutines get scheduled).
+	var reqN atomic.Int64
+	checkRT := roundTripFunc(func(r *http.Request) (*http.Response, error) {
+		n := reqN.Add(1)
+		want := clientLast.Load().(string)
+		v, has := r.Header["Last-Event-Id"]
+		got := ""
+		if has && len(v) > 0 {
+			got = v[0]
+		}
+		if n > 1 && (got != want || has != (want != "")) {
+			addFinding([]string{"last_event_id_header_wrong"}, "request #%d carried Last-Event-Id %q (present=%v) but the client's last dispatched event has ID %q", n, got, has, want)
+		}
+		return transport.RoundTrip(r)
+	})
+	cl := &sse.Client{HTTPClient: &http.Client{Transport: checkRT}, Backoff: sse.Backoff{InitialInterval: time.Millisecond, Multiplier: 1, Jitter: -1, MaxRetries: sc.MaxRetries}}
 	req, _ := http.NewRequestWithContext(ctx, http.MethodGet, srv.URL, http.NoBody)
 	conn := cl.NewConnection(req)
 	nextIdx := -1 // index of the last event received; the first one received defines the start
@@ -484,6 +502,9 @@ func genC05(rng *rand.Rand) *c05Script {
 	if rng.IntN(2) == 0 {
 		sc.HookUS = 1 + rng.IntN(40)
 	}
+	if rng.IntN(2) == 0 {
+		sc.MaxRetries = 4
+	}
 	if strings.HasPrefix(sc.Replayer, "valid") && rng.IntN(3) > 0 {
 		sc.FakeClock = true
 	}
@@ -509,6 +530,12 @@ func genC05(rng *rand.Rand) *c05Script {
 			sc.Ops = append(sc.Ops, c05Op{Kind: "pub", N: 2 + rng.IntN(4)}, c05Op{Kind: "cut_next", N: rng.IntN(300)}, c05Op{Kind: "pub", N: 1 + rng.IntN(3)})
 		default:
 			sc.Ops = append(sc.Ops, c05Op{Kind: "caughtup"}, c05Op{Kind: "cut_idle"})
+		}
+		if sc.MaxRetries > 0 {
+			// with a finite retry budget every fault is followed by publishes and a wait until the
+			// client has everything, i.e. has reconnected successfully: no script can then cause
+			// more than 2 consecutive failed attempts, so giving up is never legitimate
+			sc.Ops = append(sc.Ops, c05Op{Kind: "pub", N: 1 + rng.IntN(3)}, c05Op{Kind: "caughtup"})
 		}
 	}
 	return sc
